@@ -1,7 +1,32 @@
 """C07 - routing: is_supported_file <=> get_extractor succeeds; extension decides; MIME-database independent.
 
 Space I x configurations: every path string of a grammar (extension x case pattern x stem x trailer, compound pairs,
-data: URLs) under three mimetypes configurations (default, empty, hostile), each configuration in its own worker.
+data: URLs) under three mimetypes configurations (default, empty, hostile). The extension universe of a worker is that of
+the DEFAULT configuration plus that of its own (what a configuration removes from the database is asked under it all the
+same); the library is imported under the default configuration, then the configuration is set.
+
+Space H (configuration histories): "for every path x mimetypes configuration" speaks about the configuration IN FORCE when
+the router is asked. A process lives through several - the host calls mimetypes.add_type()/init(), the library is imported
+before or after that, the router has been asked before - and both router functions must follow the same, current,
+database: at every stage of a history the usual clauses (raises, equivalence, documented) are judged, plus clause
+confighist: the answer equals the answer of a process that has only ever seen the configuration in force. Alphabet:
+  configurations  default; empty (no types at all); hostile (documented extensions typed as OTHER supported types, invented
+                  extensions .zzN and .bak/.exe/... typed as supported); moved (every extension the default database types
+                  as supported - documented or MIME-fallback - gets a type nobody supports); swapped (each of those gets
+                  another supported type of another file type, every 7th unsupported-typed extension a supported one);
+  events          set configuration c; import the library; ask every path (both functions);
+  histories       quick: per configuration c a closed walk that starts at c with the import and takes each of the 25 ordered
+                  transitions c -> d (c -> c included) exactly once, every path asked at each of the 26 stages (so every
+                  (import configuration, previous configuration, current configuration) triple occurs). thorough: + all 125
+                  sequences of 3 configurations asked at every stage; all 25 ordered pairs asked only under the second one
+                  (import-time vs first-call state); all 25 pairs with the library imported BEFORE the first configuration is
+                  set, asked at every stage / only at the end;
+  paths           every extension of the default-configuration universe + the hostile inventions x stem "a" in lower and UPPER
+                  case [thorough: every case variant, and bare], "d.v1/a b.<ext>" for the documented ones and those the default
+                  database types as supported [thorough: all], 144 double extensions, data: URLs of every mapped type.
+Every history runs in a process created for it (a failing case is re-executed in two new processes: the history and the
+one-configuration reference). Shrinking: (import configuration, last), (previous, last), (last), drop one configuration,
+not pristine, not asked before, stem a lower case.
 
 Space F (filesystem layouts) x configurations: "the decision depends only on the trailing extension of the path STRING"
 also means that it does not depend on what the string designates on disk. Every case binds a given name to bytes through
@@ -141,10 +166,21 @@ def extension_universe():
     return sorted(exts)
 
 
-def paths(tier):
+def full_universe(cfg):
+    """Extension universe of a worker: that of the DEFAULT configuration plus that of `cfg` (the extensions a configuration
+    removes from the database are asked under it all the same). Leaves the process configured as `cfg`."""
+    configure("default")
+    u = set(extension_universe())
+    if cfg != "default":
+        configure(cfg)
+        u |= set(extension_universe())
+    return sorted(u)
+
+
+def paths(tier, universe=None):
     """Yield (kind, ext, path)"""
     quick = tier == "quick"
-    E = extension_universe()
+    E = extension_universe() if universe is None else universe
     for e in E:
         doc = e in REF or e in ("tar.gz", "tar.bz2", "tar.xz")
         stems = STEMS if (doc or not quick) else STEMS[:6]
@@ -160,13 +196,37 @@ def paths(tier):
         for st in ("a", "A B", "d.x/a"):
             yield "pair", b, f"{st}.{a}.{b}"
             yield "pair", b, f"{st}.{a.upper()}.{b.upper()}"
-    from sharepoint2text.parsing.mime_types import MIME_TYPE_MAPPING
-    for mt in sorted(MIME_TYPE_MAPPING):
+    for mt in sorted(_mime_mapping()):
         yield "dataurl", "", f"data:{mt},x"
         yield "dataurl", "", f"data:{mt};base64,AAAA"
 
 
+def _mime_mapping():
+    """The library's MIME type -> file type table WITHOUT importing the package (the moment of the import is an event of
+    the configuration histories, space H): the table module is self-contained and is executed from its file."""
+    import sys
+    m = sys.modules.get("sharepoint2text.parsing.mime_types")
+    if m is not None:
+        return dict(m.MIME_TYPE_MAPPING)
+    import importlib.util
+    spec = importlib.util.find_spec("sharepoint2text")
+    for loc in (spec.submodule_search_locations or []) if spec else []:
+        f = os.path.join(loc, "parsing", "mime_types.py")
+        if os.path.isfile(f):
+            sp = importlib.util.spec_from_file_location("_verif_c07_mime_types", f)
+            mod = importlib.util.module_from_spec(sp)
+            sp.loader.exec_module(mod)
+            return dict(mod.MIME_TYPE_MAPPING)
+    from sharepoint2text.parsing.mime_types import MIME_TYPE_MAPPING
+    return dict(MIME_TYPE_MAPPING)
+
+
+HOST_TYPE = "application/x-verif-host"      # a type no library table knows
+
+
 def configure(cfg):
+    """Put the process-wide mimetypes database into configuration `cfg` (always starting from a re-initialised default
+    database, so the result does not depend on what was configured before). Does not import the library."""
     import mimetypes
     mimetypes.init()
     if cfg == "default":
@@ -180,9 +240,9 @@ def configure(cfg):
         for d in db.types_map_inv:
             d.clear()
         return
+    MIME_TYPE_MAPPING = _mime_mapping()
+    mts = sorted(MIME_TYPE_MAPPING)
     if cfg == "hostile":
-        from sharepoint2text.parsing.mime_types import MIME_TYPE_MAPPING
-        mts = sorted(MIME_TYPE_MAPPING)
         exts = sorted(REF)
         for i, e in enumerate(exts):
             # every supported extension claims to be some *other* supported type
@@ -194,6 +254,31 @@ def configure(cfg):
             mimetypes.add_type(mt, f".zz{i}", strict=True)      # unknown extensions reaching each supported MIME type
         for e in ("bak", "exe", "zzz", "log1"):
             mimetypes.add_type("application/pdf", "." + e, strict=True)
+        return
+    base = sorted(mimetypes.types_map.items())
+    if cfg == "moved":
+        # the host has its own idea of every extension the default database maps onto a supported type (documented ones
+        # and the MIME-fallback ones alike): none of them has a supported type any more
+        for ext, mt in base:
+            if mt in MIME_TYPE_MAPPING:
+                mimetypes.add_type(HOST_TYPE, ext, strict=True)
+        return
+    if cfg == "swapped":
+        # every extension with a supported type gets another supported type (of another file type); every 7th extension
+        # with an unsupported type gets a supported one
+        j = 0
+        for ext, mt in base:
+            if mt in MIME_TYPE_MAPPING:
+                k = mts.index(mt)
+                for d in range(1, len(mts)):
+                    new = mts[(k + d) % len(mts)]
+                    if MIME_TYPE_MAPPING[new] != MIME_TYPE_MAPPING[mt]:
+                        mimetypes.add_type(new, ext, strict=True)
+                        break
+            else:
+                if j % 7 == 0:
+                    mimetypes.add_type(mts[(j // 7) % len(mts)], ext, strict=True)
+                j += 1
         return
     raise ValueError(cfg)
 
@@ -245,12 +330,16 @@ def classify(p, ext):
 
 def _part(arg):
     tier, cfg, k, n, seed = arg
-    configure(cfg)
+    # the library is imported under the default configuration (a pool worker is reused for several configurations; the
+    # histories in which the import happens under another configuration are space H's), then the configuration is set
+    configure("default")
+    import sharepoint2text  # noqa
+    universe = full_universe(cfg)
     ev = 0
     fails = []
     outs = {}
     samples = []
-    for i, (kind, ext, p) in enumerate(paths(tier)):
+    for i, (kind, ext, p) in enumerate(paths(tier, universe)):
         if i % n != k:
             continue
         f, oc = check_path(p)
@@ -1031,6 +1120,231 @@ def _nd_shrinks(case):
     return out
 
 
+# ---------------------------------------------------------------------------------------------------------------------
+# Space H: configuration histories. "For every path x mimetypes configuration" is a statement about the configuration IN
+# FORCE when the router is asked: a process lives through several (the host application calls mimetypes.add_type / init,
+# a test suite patches the database, the library is imported before or after that), and both router functions must follow
+# the same - current - database. Every history runs in a process of its own, created for it.
+H_CONFIGS = ("default", "empty", "hostile", "moved", "swapped")
+_H_FRESH = {"seq": None, "warm": True, "pristine": False}
+
+
+def _h_walk(start, cfgs=H_CONFIGS):
+    """Closed walk from `start` through every ordered pair (c, d) of configurations, c -> c included, exactly once
+    (Eulerian circuit of the complete digraph with loops; Hierholzer, neighbours in list order rotated to `start`)."""
+    order = list(cfgs)
+    k = order.index(start)
+    order = order[k:] + order[:k]
+    adj = {c: list(order) for c in order}
+    stack, circuit = [start], []
+    while stack:
+        v = stack[-1]
+        if adj[v]:
+            stack.append(adj[v].pop(0))
+        else:
+            circuit.append(stack.pop())
+    return circuit[::-1]
+
+
+def h_cases(tier):
+    """Histories of the tier: {"seq": configurations in order, "warm": every path is asked at every stage (else only at
+    the last one), "pristine": the library is imported before the first configuration is set (else right after it)}."""
+    out = [{"seq": _h_walk(c), "warm": True, "pristine": False} for c in H_CONFIGS]
+    if tier != "quick":
+        for t in itertools.product(H_CONFIGS, repeat=3):
+            out.append({"seq": list(t), "warm": True, "pristine": False})
+        for a, b in itertools.product(H_CONFIGS, repeat=2):
+            out.append({"seq": [a, b], "warm": False, "pristine": False})
+            out.append({"seq": [a, b], "warm": True, "pristine": True})
+            out.append({"seq": [a, b], "warm": False, "pristine": True})
+    return out
+
+
+def _h_universe():
+    """Extension universe of space H (the same in every process): default-configuration universe + the extensions the
+    hostile configuration invents. Leaves the default configuration in force."""
+    configure("default")
+    return sorted(set(extension_universe()) | {f"zz{i}" for i in range(len(_mime_mapping()))})
+
+
+def h_paths(tier, universe):
+    """Paths asked at every stage. Must be called under the default configuration (as left by _h_universe)."""
+    import mimetypes
+    quick = tier == "quick"
+    mm = _mime_mapping()
+    typed = {k[1:].lower() for k, v in mimetypes.types_map.items() if v in mm}       # the default database gives them a supported type
+    out = []
+    for e in universe:
+        if quick:
+            out += [f"a.{e}", f"a.{e.upper()}"]
+        else:
+            out += [f"a.{v}" for v in case_variants(e)] + [f"a.{e.upper()}", e]
+        if not quick or e in REF or e in typed or e.startswith("zz"):
+            out.append(f"d.v1/a b.{e}")
+    twelve = ["docx", "pdf", "txt", "gz", "tar", "zip", "7z", "htm", "bak", "xz", "bz2", "eml"]
+    for a, b in itertools.product(twelve, twelve):
+        out.append(f"a.{a}.{b}")
+    for mt in sorted(mm):
+        out.append(f"data:{mt},x")
+    return sorted(set(out))
+
+
+def _h_run(hist, tier, extra=()):
+    """Live through one history in THIS process (which must not have imported the library yet). Returns per judged stage
+    {"i", "cfg", "outs": outcome per path, "fails": [(path index, clause, msg)]} and the path list."""
+    import sys
+    if any(m == "sharepoint2text" or m.startswith("sharepoint2text.") for m in sys.modules):
+        raise RuntimeError("space H: the library is already imported in this process (a history needs a process of its own)")
+    seq, warm, pristine = hist["seq"], hist["warm"], hist["pristine"]
+    if pristine:
+        import sharepoint2text  # noqa  (before this process has touched the mimetypes module's state)
+    universe = _h_universe()
+    pl = h_paths(tier, universe)
+    pl += [p for p in extra if p not in set(pl)]
+    stages = []
+    for i, c in enumerate(seq):
+        configure(c)
+        if i == 0 and not pristine:
+            import sharepoint2text  # noqa  (under the first configuration)
+        if not warm and i < len(seq) - 1:
+            continue
+        outs, fails = [], []
+        for j, p in enumerate(pl):
+            f, oc = check_path(p)
+            outs.append(oc if isinstance(oc, str) else (oc[0], oc[1]))
+            for clause, msg in f:
+                fails.append((j, clause, msg))
+        stages.append({"i": i, "cfg": c, "outs": outs, "fails": fails})
+    return stages, pl
+
+
+def _h_label(hist, i):
+    seq = hist["seq"]
+    imp = "before any configuration" if hist["pristine"] else f"under {seq[0]}"
+    asked = "asked at every stage" if hist["warm"] else "not asked before"
+    return f"library imported {imp}; configurations so far {' > '.join(seq[:i + 1])}; {asked}"
+
+
+def _h_case(hist, i, p):
+    return {"path": p, "class": ["hist", classify(p, "")[0]], "via": "hist",
+            "hist": {"seq": list(hist["seq"][:i + 1]), "warm": hist["warm"], "pristine": hist["pristine"]}}
+
+
+def _h_task(arg):
+    tier, hist, seed, want_paths = arg
+    stages, pl = _h_run(hist, tier)
+    table, codes = {}, []
+    for st in stages:
+        row = []
+        for oc in st["outs"]:
+            key = str(oc)
+            if key not in table:
+                table[key] = (len(table), oc)
+            row.append(table[key][0])
+        codes.append(row)
+    return {"ev": sum(len(st["outs"]) for st in stages), "stages": [(st["i"], st["cfg"], st["fails"]) for st in stages], "codes": codes,
+            "table": [oc for _, oc in sorted(table.values(), key=lambda t: t[0])], "npaths": len(pl), "paths": pl if want_paths else None,
+            "digest": __import__("hashlib").sha1("\n".join(pl).encode("utf-8", "surrogatepass")).hexdigest()}
+
+
+def _h_fresh_map(func, args, ncpu):
+    """Every task in a process created for it: pools of exactly as many workers as tasks (a pool hands its first tasks to
+    newly spawned workers, one each)."""
+    res = []
+    args = list(args)
+    for o in range(0, len(args), ncpu):
+        batch = args[o:o + ncpu]
+        res += P.run_all("verif.props.C07", func, batch, n=len(batch), hard_timeout=1800)
+    return res
+
+
+def _h_judge(results, hists, pl):
+    """Master side: the library's own clauses per stage, and clause confighist - the answer under the configuration in
+    force equals the answer of a process that has only ever seen that configuration. Per history, path and clause the FIRST
+    failing stage is reported."""
+    ref = {}
+    for h, r in zip(hists, results):
+        if h["warm"] and not h["pristine"] and r["stages"] and r["stages"][0][0] == 0:
+            ref.setdefault(h["seq"][0], [tuple(r["table"][c]) if isinstance(r["table"][c], (list, tuple)) else r["table"][c] for c in r["codes"][0]])
+    fails = []
+    for h, r in zip(hists, results):
+        seen = set()
+        for (i, c, sf), row in zip(r["stages"], r["codes"]):
+            for j, clause, msg in sf:
+                if (j, clause) not in seen:
+                    seen.add((j, clause))
+                    fails.append((clause, c, _h_case(h, i, pl[j]), f"[{_h_label(h, i)}] {msg}"))
+            rf = ref.get(c)
+            if rf is None or (i == 0 and not h["pristine"]):
+                continue
+            for j, code in enumerate(row):
+                oc = r["table"][code]
+                oc = tuple(oc) if isinstance(oc, (list, tuple)) else oc
+                if oc != rf[j] and (j, "confighist") not in seen:
+                    seen.add((j, "confighist"))
+                    fails.append(("confighist", c, _h_case(h, i, pl[j]),
+                                  f"[{_h_label(h, i)}] the router answers {oc} for {pl[j]!r} under {c}; a process that has only ever seen {c} answers {rf[j]}"))
+    return fails, ref
+
+
+def _h_one(arg):
+    """Re-execution of one case: ("run", hist, path) lives through the history and returns the last stage's verdicts and
+    outcome for the path; the reference is the same with the one-configuration history."""
+    hist, p = arg
+    stages, pl = _h_run(hist, "quick", extra=(p,))
+    st = stages[-1]
+    j = pl.index(p)
+    oc = st["outs"][j]
+    return {"fails": [(clause, msg) for jj, clause, msg in st["fails"] if jj == j], "out": oc if isinstance(oc, str) else list(oc)}
+
+
+def _h_single(cfg, case):
+    hist, p = case["hist"], case["path"]
+    if not hist["seq"] or hist["seq"][-1] != cfg:
+        return []
+    fresh = dict(_H_FRESH, seq=[cfg])
+    res = _h_fresh_map("_h_one", [(hist, p), (fresh, p)], 2)
+    for st, r, _ in res:
+        if st != "done":
+            raise RuntimeError(f"history re-execution failed: {st}: {str(r)[-300:]}")
+    got, rf = res[0][1], res[1][1]
+    i = len(hist["seq"]) - 1
+    out = [(c, f"[{_h_label(hist, i)}] {m}") for c, m in got["fails"]]
+    if got["out"] != rf["out"] and (len(hist["seq"]) > 1 or hist["pristine"]):
+        out.append(("confighist", f"[{_h_label(hist, i)}] the router answers {got['out']} for {p!r} under {cfg}; a process that has only ever seen {cfg} answers {rf['out']}"))
+    return out
+
+
+def _h_shrinks(case):
+    hist, p = case["hist"], case["path"]
+    seq = hist["seq"]
+    out = []
+
+    def alt(path=p, **kw):
+        h = dict(hist)
+        h.update(kw)
+        if h != hist or path != p:
+            c = {"path": path, "class": ["hist", classify(path, "")[0]], "via": "hist", "hist": h}
+            if c["class"] == case["class"] and c not in out:
+                out.append(c)
+    if len(seq) > 2:
+        alt(seq=[seq[0], seq[-1]])
+        alt(seq=[seq[-2], seq[-1]])
+    if len(seq) > 1:
+        alt(seq=[seq[-1]])
+    if len(seq) > 3:
+        for k in range(1, len(seq) - 1):
+            alt(seq=seq[:k] + seq[k + 1:])
+    if hist["pristine"]:
+        alt(pristine=False)
+    if hist["warm"] and len(seq) > 1:
+        alt(warm=False)
+    sfx = _fs_suffix(p.rsplit("/", 1)[-1])
+    if sfx and not p.startswith("data:"):
+        alt(path="a" + sfx.lower())
+    return out
+
+
 _REEXEC_POOL = []
 
 
@@ -1056,10 +1370,14 @@ def _nd_single(cfg, case):
 
 
 def reexec(fmt, case):
+    if case.get("via") == "hist":
+        return _h_single(fmt, case)
     if case.get("via") == "fs":
         return _fs_single(fmt, case["fs"])
     if case.get("via") == "nd":
         return _nd_single(fmt, case)
+    configure("default")
+    import sharepoint2text  # noqa  (as in the sweep: imported under the default configuration, then the configuration is set)
     configure(fmt)
     p = case["path"]
     if case.get("via") == "readfile":
@@ -1087,6 +1405,8 @@ def _readfile_single(cfg, nm):
 
 
 def shrinks(case):
+    if case.get("via") == "hist":
+        return _h_shrinks(case)
     if case.get("via") == "nd":
         return _nd_shrinks(case)
     if case.get("via") != "fs":
@@ -1128,12 +1448,42 @@ def run(ctx):
     args4 = [(ctx.tier, c, k, nn, ctx.seed) for c in cfgs for k in range(nn)]
     random.Random(ctx.seed + 2).shuffle(args4)
     res4 = P.run_all("verif.props.C07", "_nd_part", args4, n=ctx.ncpu, hard_timeout=1800)
+    hists = h_cases(ctx.tier)
+    order = list(range(len(hists)))
+    random.Random(ctx.seed + 3).shuffle(order)
+    res5 = _h_fresh_map("_h_task", [(ctx.tier, hists[i], ctx.seed, i == 0) for i in order], ctx.ncpu)
+    res5 = [res5[order.index(i)] for i in range(len(hists))]
     ev = 0
     fails = []
     outs = {}
     samples = []
     herr = []
     per_cfg = {}
+    h_ev = h_stages = 0
+    h_paths_n = 0
+    if all(st == "done" for st, _, _ in res5):
+        rs = [r for _, r, _ in res5]
+        if len({r["digest"] for r in rs}) != 1:
+            herr.append("space H: the path list differs between processes")
+        else:
+            hf, href = _h_judge(rs, hists, rs[0]["paths"])
+            fails += hf
+            if set(href) != set(H_CONFIGS):
+                herr.append(f"space H: no single-configuration reference for {sorted(set(H_CONFIGS) - set(href))}")
+            h_ev = sum(r["ev"] for r in rs)
+            h_stages = sum(len(r["stages"]) for r in rs)
+            h_paths_n = rs[0]["npaths"]
+            ev += h_ev
+            for r in rs:
+                for row in r["codes"]:
+                    for c in set(row):
+                        key = "hist:" + str(r["table"][c])
+                        outs[key] = outs.get(key, 0) + row.count(c)
+            samples.append({"history": hists[0]["seq"][:4] + ["..."], "paths": h_paths_n})
+    else:
+        for (st, r, _), h in zip(res5, hists):
+            if st != "done":
+                herr.append(f"history task {h} failed: {st}: {str(r)[-500:]}")
     fs_ev = 0
     fs_forms = {}
     fs_skipped = set()
@@ -1168,6 +1518,8 @@ def run(ctx):
                    "argument kinds, see fs_family) judged for router independence of the disk state and read_file == get_extractor; "
                    "plus nested dispatch (archive members, mail attachments, see nested_family): every part reaches exactly "
                    "get_extractor(its name), alone and next to siblings; "
+                   "plus configuration histories (see history_family): the router follows the configuration in force, whatever was "
+                   "in force at import time or when it was asked before; "
                    "distinct_nontrivial = distinct (supported?, extractor) outcomes",
            "fs_family": {"evaluations": fs_ev, "names": dict(zip(("full_product", "quick_product"), map(len, _fs_names(ctx.tier)))), "forms": list(FS_FORMS), "targets": list(FS_TARGETS),
                          "contents": sorted(FS_CONTENTS), "args": list(FS_ARGS), "per_form": dict(sorted(fs_forms.items())),
@@ -1191,10 +1543,26 @@ def run(ctx):
                                        "thorough: triples of representative names per declared type (default configuration). attachments "
                                        "through the real .eml and mbox readers: all representative names under one declared type in both orders, "
                                        "per non-composite declared type [thorough: + ordered pairs, default configuration]"},
+           "history_family": {"evaluations": h_ev, "histories": len(hists), "stages_judged": h_stages, "paths_per_stage": h_paths_n,
+                              "configurations": list(H_CONFIGS),
+                              "bounds": "every history in a process created for it. quick: per configuration c one closed walk that starts at c "
+                                        "(library imported under c), takes each of the 25 ordered transitions between the 5 configurations "
+                                        "once (26 stages) and asks every path at every stage. thorough: + every sequence of 3 configurations, "
+                                        "every path asked at every stage; every ordered pair with the paths asked only under the second "
+                                        "configuration; every ordered pair with the library imported before the first configuration is set "
+                                        "(asked at every stage / only at the end). paths: every extension of the default-configuration "
+                                        "universe and of the hostile configuration x (stem a lower + UPPER [thorough: all case variants + bare]; "
+                                        "directory-with-dot + blank stem for the documented ones and those the default database gives a "
+                                        "supported type [thorough: all]) + 144 double extensions + data: URLs. clauses per stage: "
+                                        "raises, equivalence, documented; confighist: same answer as a process that has only ever seen the "
+                                        "configuration in force"},
            "per_config": per_cfg, "outcomes": {k: v for k, v in sorted(outs.items())[:80]}, "samples": sorted(samples, key=str)[:6], "exhaustive": True}
     return {"coverage": cov, "failures": fails, "harness_errors": herr,
             "assumptions": ["reference table transcribed from the README format tables", "paths whose trailing extension is not documented "
                             "are only required to satisfy the equivalence and exception-type clauses (MIME fallback is host dependent by design)",
+                            "configuration histories: the five configurations are set through the public mimetypes API (init, add_type) "
+                            "or by emptying the database's maps; a history-free answer for a path without documented extension is whatever a "
+                            "process that has only ever seen the configuration in force answers (the MIME fallback follows the CURRENT database)",
                             "filesystem layouts are built under a tempfile.mkdtemp directory whose own components contain no dot; forms the "
                             "host file system refuses (symbolic or hard links) are skipped and listed in fs_family.skipped_forms",
                             "nested dispatch: hidden archive members (leading dot, __MACOSX/) and archives inside archives may be left "
